@@ -414,6 +414,21 @@ def lattice_c05(ctx):
         why = _judge(vals, true_min, 'min %s (even exponents only)' % name, groups, [[(f_, 'p=0'), (f_, 'p=1')] for f_ in ('primal', 'dual')])
         if why:
             return why, nsolves
+    # polynomials built with the constructor that STORE an explicit zero coefficient (3 + 0 x - x^2; 1 + 0 xy - 2x^2 - y^2 + x/2): both forms, constrained entry point
+    from sageopt.symbolic.polynomials import Polynomial as Poly_
+    fz1 = Poly_(np.array([[0], [1], [2]]), np.array([3.0, 0.0, -1.0]))
+    fz2 = Poly_(np.array([[0, 0], [1, 1], [2, 0], [0, 2], [1, 0]]), np.array([1.0, 0.0, -2.0, -1.0, 0.5]))
+    for name, pzc, gz, ubzc in (('3 + 0x - x^2 s.t. 1 - x^2 >= 0', fz1, [1 - x[0] ** 2], 2.0),
+                                ('1 + 0xy - 2x^2 - y^2 + x/2 on the unit box', fz2, [1 - x2[0] ** 2, 1 - x2[1] ** 2], -2.5)):
+        vals = {}
+        for form in ('primal', 'dual'):
+            vals[(form, 'p=0')] = _solve(lambda: sp.poly_constrained_relaxation(pzc, gz, [], form=form, p=0, q=1, ell=0))
+            nsolves += 1
+        vals[('dual', 'zero stored in a constraint')] = _solve(lambda: sp.poly_constrained_relaxation(pzc.without_zeros(), [Poly_(g_.alpha, g_.c) + Poly_(np.zeros((1, pzc.n)), np.array([0.0])) for g_ in gz], [], form='dual', p=0, q=1, ell=0))
+        nsolves += 1
+        why = _judge(vals, ubzc, 'min %s (a zero coefficient is stored)' % name, [list(vals)], [])
+        if why:
+            return why, nsolves
     # the dual encodings (compact / epigraph) over a domain that is ACTIVE, both entry points: the domain rows are part of every encoding
     import sageopt.coniclifts as cl_
     pz = x2[0] ** 4 + x2[1] ** 4 - 3 * x2[0] ** 2 - 2 * x2[1] ** 2 + x2[0] * x2[1] + x2[0]
